@@ -108,7 +108,7 @@ theorem metadata_typed_field (cfg : Config) (metas : List (String × DTy)) (attr
 theorem alias_table_tied : ∀ kv ∈ Generated.aliasTable, Visit.basicTypeCanon kv.1 = some kv.2 := by decide
 
 /-- … taken on the lower-cased spelling, as the model does (`getBasicType t = (basicTypeCanon t.toLower).getD t`) -/
-theorem alias_subject_tied : Generated.aliasSubject = "strings.ToLower(fieldType)" := by decide
+theorem alias_subject_tied : Generated.aliasSubject = "strings.ToLower($0)" := by decide
 
 theorem getBasicType_def (t : String) : Visit.getBasicType t = (Visit.basicTypeCanon t.toLower).getD t := rfl
 
